@@ -187,3 +187,40 @@ Proof.
   { clear - Htr. induction Htr as [|f fs Hf _ IH]; [reflexivity|]. rewrite values_of_cons, Hf. exact IH. }
   reflexivity.
 Qed.
+
+(* ====================================================================== *)
+(* once the response is complete, nothing the peer does afterwards counts *)
+(* ====================================================================== *)
+
+Lemma h2_pipe_after evs after : snd (h2_pipe evs) <> H2Pending -> h2_pipe (evs ++ after) = h2_pipe evs.
+Proof.
+  induction evs as [|e evs IH]; cbn [app h2_pipe]; [intros H; now contradiction H|].
+  destruct e as [p [|]| | | |]; try reflexivity.
+  intros H. destruct (h2_pipe evs) as [d e0] eqn:E. cbn [snd] in *. rewrite IH by exact H. reflexivity.
+Qed.
+
+Lemma h2_read_after cl hdr_end evs after :
+  snd (h2_pipe evs) <> H2Pending -> h2_read cl hdr_end (evs ++ after) = h2_read cl hdr_end evs.
+Proof. intros H. unfold h2_read. now rewrite h2_pipe_after. Qed.
+
+(* A response stream that has ended (END_STREAM on DATA or on the trailer block): RST_STREAM
+   with any code, GOAWAY, the end of the connection - ANY sequence of later peer events, in
+   any order relative to the caller's reads - leaves status, header, trailers and the body
+   the caller reads unchanged. *)
+Theorem h2_after_end_irrelevant is_head heads frames trailers after m sizes :
+  snd (h2_pipe (h2_events frames (match trailers with Some _ => true | None => false end))) <> H2Pending ->
+  h2_exchange_after is_head heads frames trailers after m sizes =
+  h2_exchange is_head heads frames trailers m sizes.
+Proof.
+  intros H. unfold h2_exchange, h2_exchange_after.
+  destruct (h2_final heads 0) as [[code hd]|]; [|reflexivity].
+  destruct (h2_header (hh_fields hd)) as [hdr declared].
+  rewrite h2_read_after by exact H. now rewrite app_nil_r.
+Qed.
+
+Lemma ended_on_data fs last : open_frames fs -> fd_end last = true ->
+  snd (h2_pipe (h2_events (fs ++ [last]) false)) <> H2Pending.
+Proof. intros Ho Hl. rewrite h2_pipe_end_on_data by assumption. discriminate. Qed.
+
+Lemma ended_on_trailers fs : open_frames fs -> snd (h2_pipe (h2_events fs true)) <> H2Pending.
+Proof. intros Ho. rewrite h2_pipe_end_on_trailers by assumption. discriminate. Qed.
